@@ -177,11 +177,15 @@ func (s *Stream) LogRequest(id string, req *http.Request) error {
 		}
 	}
 
-	req.Body = &bodyLogger{
-		s:    s,
-		id:   id,
-		mt:   Request,
-		body: req.Body,
+	// A request without a body stays recognisable as such: the transport frames a request
+	// with a non-nil body of unknown length as chunked.
+	if req.Body != nil && req.Body != http.NoBody {
+		req.Body = &bodyLogger{
+			s:    s,
+			id:   id,
+			mt:   Request,
+			body: req.Body,
+		}
 	}
 
 	return nil
